@@ -10,7 +10,7 @@
    The specification side (AST, printer, denotation) lives in harness/tokast.py; the oracle compares it with the
    implementation on exhaustive small and random deep ASTs on every run. *)
 From Coq Require Import List ZArith QArith Ascii String Bool.
-From GBS Require Import Model.PyStr Model.Num Model.Bond Model.Token Src.SrcBond Proofs.BondP Proofs.TokenP Model.DistFam Src.SrcDist Model.Stoch Proofs.TotalP Proofs.StochP.
+From GBS Require Import Model.PyStr Model.Num Model.Bond Model.Token Src.SrcBond Proofs.BondP Proofs.TokenP Model.DistFam Src.SrcDist Model.Stoch Proofs.TotalP Proofs.StochP Model.Mol Proofs.MolP.
 Import ListNotations.
 Open Scope Z_scope.
 
@@ -56,6 +56,13 @@ Theorem C02_object_descriptor_table_partial : forall (valid_atom : str -> bool) 
   (exists raw pre, parse_descr raw (Z.of_nat (List.length (ps_bds s))) pre None = OK (ps_right s)).
 Proof. intros v text s H. destruct (parse_stoch_spec v text s H) as (A & B & C & _ & D & E). auto. Qed.
 Print Assumptions C02_object_descriptor_table_partial.
+
+(* the molecule layer (Model/Mol.v): the elements of an accepted molecule alternate -- a token is directly followed by a stochastic object
+   unless it is the last element; never two tokens in a row *)
+Theorem C02_molecule_elements_alternate_partial : forall (valid_atom : str -> bool) (fprint : num -> str) text m,
+  parse_molecule valid_atom fprint text = OK m -> alternates (ml_elems m).
+Proof. exact parse_molecule_alternates. Qed.
+Print Assumptions C02_molecule_elements_alternate_partial.
 
 Example C02_example_branch_after_branch :
   summary "[<]CC(C)([>])C(=O)OC" = Some [(lit "<", Some 0, OSingle); (lit ">", Some 1, OSingle)].
